@@ -287,7 +287,12 @@ def run(repo, chk):
     chk.ob("R11.4", "tags._merge:union", ok, mg.where, "a & b is the union of both sides' members: the set handed to TagSet collects " +
            (", ".join(f"{k} {t} when {c}" for c, k, t in sorted(srcs)) if srcs is not None else f"<not a recognised set construction: {why_}>"))
     eq = repo.func("tags.TagSet.__eq__")
-    chk.ob("R11.4", "tags.TagSet.__eq__:by-members", norm(returns_of(eq.node)[0].value) == "isinstance(other, TagSet) and other.members == self.members", eq.where, "tag sets are equal iff their members are")
+    eq_rets = [(sorted(cs), norm(v)) for cs, v, r in returns_with_conds(eq.node)]
+    op_ = eq.node.args.args[1].arg
+    eq_ok = eq_rets in ([([], f"isinstance({op_}, TagSet) and {op_}.members == self.members")], [([], f"isinstance({op_}, TagSet) and self.members == {op_}.members")]) \
+        or sorted(eq_rets) in (sorted([([f"isinstance({op_}, TagSet)"], f"{op_}.members == self.members"), ([f"not isinstance({op_}, TagSet)"], "False")]),
+                               sorted([([f"isinstance({op_}, TagSet)"], f"self.members == {op_}.members"), ([f"not isinstance({op_}, TagSet)"], "False")]))
+    chk.ob("R11.4", "tags.TagSet.__eq__:by-members", eq_ok, eq.where, "tag sets are equal iff their members are")
     for c in ("Tag", "TagSet"):
         cd = repo.cls(f"tags.{c}")
         ops = {norm(t): norm(n.value) for n in cd.body if isinstance(n, ast.Assign) for t in n.targets}
